@@ -33,7 +33,7 @@ extern "C" int __sanitizer_install_malloc_and_free_hooks(void (*malloc_hook)(con
 
 namespace sim {
 
-static const int MAX_TASKS = 64;
+static const int MAX_TASKS = 1024;
 
 struct Global {
 	bool running = false;
